@@ -200,6 +200,14 @@ class Session:
         for c, k in pc.items():
             if k > 1 and typ.get(c) != "PMUX":
                 self.fail("C14", "only-mux-multi-parent", "%s (%s) has %d parents" % (c, typ.get(c), k))
+        for key, ent in doc.items():
+            if key != "system" and isinstance(ent, dict) and "parents" in ent:
+                ps = ent["parents"]
+                if len(ps) != len(set(ps)):
+                    self.fail("C14", "mux-parents-distinct", "save() lists the parents of %s as %s" % (key, ps))
+                tree_ps = sorted(par for par, kids in t["adj"].items() if key in kids)
+                if sorted(ps) != tree_ps:
+                    self.fail("C14", "mux-parents-agree", "save() parents of %s %s, tree() shows it under %s" % (key, ps, tree_ps))
         nmux = sum(1 for n in names if typ[n] == "PMUX")
         if nmux > 1:
             self.fail("C14", "at-most-one-mux", "%d PMux components" % nmux)
